@@ -178,7 +178,15 @@ impl Service<Vec<u8>, ()> for SimService {
                 _ => {}
             }
             if ask.m <= 1 {
-                let item: ServiceResult<Vec<u8>> = Ok(CallResult::new(build_response(&msg, &ask, 0)));
+                // Every fourth response carries feedback for the server along
+                // with it (as the library's own example service does): it is
+                // a response like any other.
+                let mut cr = CallResult::new(build_response(&msg, &ask, 0));
+                if ask.k % 4 == 3 {
+                    sim::stat("probe.response_with_feedback_attached");
+                    cr = cr.with_feedback(ServiceFeedback::Reconfigure { idle_timeout: None });
+                }
+                let item: ServiceResult<Vec<u8>> = Ok(cr);
                 Box::pin(futures_util::stream::once(std::future::ready(item))) as SvcStream
             } else {
                 // A transaction of m responses.
